@@ -282,35 +282,62 @@ def b2(cx):
 
 @rule("B3", ["C13", "C09"], "update_from_xbuffer: native copy only for equal contexts, otherwise bytearray round trip with the same arguments")
 def b3(cx):
+    """evaluated: update_from_xbuffer is run on a buffer whose two primitive writers are recorders, with a source
+    living (a) in the same context object, (b) in another one.  (a) must end in exactly one native copy
+    (offset, source.buffer, source_offset, nbytes) and no host staging; (b) must extract
+    source.to_bytearray(source_offset, nbytes) and write exactly those bytes with update_from_buffer at `offset`,
+    and must not hand them to the native copy (which would read them at source_offset again)."""
+    from ..peval import Interp, Obj, Opaque, Builtin, Sym
+    from ..linear import Poly
     m = cx.m
     fn = m.func("context::XBuffer.update_from_xbuffer")
     pn = param_names(fn)
     cx.need(pn == ["self", "offset", "source", "source_offset", "nbytes"], "update_from_xbuffer: unexpected signature")
-    ifs = [s for s in fn.body if isinstance(s, ast.If)]
-    cx.need(len(ifs) == 1, "update_from_xbuffer: single if/else expected")
-    i = ifs[0]
-    t = i.test
-    ok_t = isinstance(t, ast.Compare) and len(t.ops) == 1 and isinstance(t.ops[0], (ast.Eq, ast.Is)) and {norm(t.left), norm(t.comparators[0])} == {"source.context", "self.context"}
-    neg_t = isinstance(t, ast.Compare) and len(t.ops) == 1 and isinstance(t.ops[0], (ast.NotEq, ast.IsNot)) and {norm(t.left), norm(t.comparators[0])} == {"source.context", "self.context"}
-    cx.need(ok_t or neg_t, f"update_from_xbuffer: test `{short(t)}` is not a comparison of the two contexts")
-    same, other = (i.body, i.orelse) if ok_t else (i.orelse, i.body)
-    cx.ok(i, construct=f"if {short(t)}", detail="dispatch on context identity", sub="test")
-    nat = [c for s in same for c in ast.walk(s) if isinstance(c, ast.Call) and call_name(c) == "update_from_native"]
-    okn = len(nat) == 1 and [norm(a) for a in nat[0].args] == ["offset", "source.buffer", "source_offset", "nbytes"] and norm(nat[0].func.value) == "self"
-    cx.check(okn, nat[0] if nat else i, detail="same context: native copy (offset, source.buffer, source_offset, nbytes)", bad_detail="native arm does not pass (offset, source.buffer, source_offset, nbytes)", sub="native")
-    tb = [c for s in other for c in ast.walk(s) if isinstance(c, ast.Call) and call_name(c) == "to_bytearray"]
-    ub = [c for s in other for c in ast.walk(s) if isinstance(c, ast.Call) and call_name(c) == "update_from_buffer"]
-    okb = len(tb) == 1 and norm(tb[0].func.value) == "source" and [norm(a) for a in tb[0].args] == ["source_offset", "nbytes"]
-    cx.check(okb, tb[0] if tb else i, detail="other context: bytes extracted from the source at (source_offset, nbytes)", bad_detail="cross-context arm does not extract source.to_bytearray(source_offset, nbytes)", sub="extract")
-    oku = False
-    if len(ub) == 1 and norm(ub[0].func.value) == "self" and len(ub[0].args) == 2 and norm(ub[0].args[0]) == "offset":
-        a = ub[0].args[1]
-        d = Defs(fn)
-        if isinstance(a, ast.Name) and d.single(a.id) is not None and tb and d.single(a.id) is tb[0]:
-            oku = True
-        elif tb and a is tb[0]:
-            oku = True
-    cx.check(oku, ub[0] if ub else i, detail="and written at `offset`", bad_detail="cross-context arm does not write the extracted bytes at `offset`", sub="write")
+    OFFS, SOFF, NB = (Sym(Poly.atom(x)) for x in ("offset", "source_offset", "nbytes"))
+
+    def bind(names, a, k):
+        out = dict(zip(names, a))
+        out.update(k)
+        return out
+
+    for same in (True, False):
+        I = Interp(m)
+        XB = I.global_lookup("context", "XBuffer")
+        log = []
+        c1, c2 = Obj("instance", {}, name="ctxA"), Obj("instance", {}, name="ctxB")
+        staged = Opaque("staged-bytes")
+        srcbuf = Opaque("source.buffer")
+
+        def rec(kind, names):
+            return Builtin(kind, lambda *a, **k: log.append((kind, bind(names, a, k))))
+
+        def tba(*a, **k):
+            log.append(("to_bytearray", bind(("offset", "nbytes"), a, k)))
+            return staged
+
+        me = Obj("instance", {"context": c1, "buffer": Opaque("self.buffer"),
+                              "update_from_native": rec("update_from_native", ("offset", "source", "source_offset", "nbytes")),
+                              "update_from_buffer": rec("update_from_buffer", ("offset", "source"))}, cls=XB)
+        src = Obj("instance", {"context": c1 if same else c2, "buffer": srcbuf, "to_bytearray": Builtin("to_bytearray", tba),
+                               "to_nplike": Builtin("to_nplike", lambda *a, **k: (log.append(("to_nplike", {})), Opaque("nplike"))[1])}, cls=XB)
+        res = I.explore(lambda: I.call(I.getattr(me, "update_from_xbuffer"), [OFFS, src, SOFF, NB], {}), max_paths=8)
+        cx.recog(len(res) == 1 and res[0]["exc"] is None, fn, f"update_from_xbuffer ({'same' if same else 'other'} context): evaluation did not end in one normal path ({[str(r['exc']) for r in res][:2]})")
+        writes = [e for e in log if e[0] in ("update_from_native", "update_from_buffer")]
+        label = f"update_from_xbuffer, source in {'the same' if same else 'another'} context"
+
+        def is_(v, want):
+            return v is want or (isinstance(v, Sym) and isinstance(want, Sym) and v == want)
+
+        if same:
+            ok = len(writes) == 1 and writes[0][0] == "update_from_native" and all(is_(writes[0][1].get(k), w) for k, w in (("offset", OFFS), ("source", srcbuf), ("source_offset", SOFF), ("nbytes", NB)))
+            ok = ok and not any(e[0] in ("to_bytearray", "to_nplike") for e in log)
+            cx.check(ok, None, construct=label, detail="one native copy (offset, source.buffer, source_offset, nbytes), no staging through the host", bad_detail=f"same-context copy is not the native copy of (offset, source.buffer, source_offset, nbytes): {[(k, {a: repr(b) for a, b in d.items()}) for k, d in log]}", anchor="context::XBuffer.update_from_xbuffer", sub="native")
+        else:
+            ext = [e for e in log if e[0] == "to_bytearray"]
+            okb = len(ext) == 1 and is_(ext[0][1].get("offset"), SOFF) and is_(ext[0][1].get("nbytes"), NB)
+            cx.check(okb, None, construct=label + ": extraction", detail="bytes extracted from the source at (source_offset, nbytes)", bad_detail=f"cross-context copy does not extract source.to_bytearray(source_offset, nbytes): {[(k, {a: repr(b) for a, b in d.items()}) for k, d in log]}", anchor="context::XBuffer.update_from_xbuffer", sub="extract")
+            oku = len(writes) == 1 and writes[0][0] == "update_from_buffer" and is_(writes[0][1].get("offset"), OFFS) and writes[0][1].get("source") is staged
+            cx.check(oku, None, construct=label + ": write", detail="and exactly those bytes written at `offset` with update_from_buffer", bad_detail=f"cross-context copy does not write the extracted bytes at `offset` with update_from_buffer: {[(k, {a: repr(b) for a, b in d.items()}) for k, d in log]}", anchor="context::XBuffer.update_from_xbuffer", sub="write")
 
 
 @rule("B4", ["C13"], "sibling buffer classes implement the abstract signature with the same parameter order")
@@ -343,55 +370,96 @@ def b4(cx):
 
 @rule("SC", ["C01", "C13"], "scalar read/write helpers use one dtype, one size and the declared argument order")
 def sc(cx):
+    """evaluated: every exported numeric scalar type is instantiated from its declaration with a model of np.dtype /
+    np.frombuffer that records what it is given; the four buffer helpers are run against a recording buffer:
+    read = element 0 of frombuffer(to_bytearray(offset, itemsize), that dtype) with no extra offset/count;
+    write = update_from_buffer(offset, dtype.type(value).tobytes()); array write = update_from_buffer(offset,
+    value.tobytes()); array read = to_nplike(offset, that dtype, (count,))."""
+    from ..peval import Interp, Obj as _Obj, Opaque as _Op, Builtin as _B, Sym as _Sym, Namespace as _NS
+    from ..linear import Poly as _Poly
     m = cx.m
-    cls = m.cls("scalar::NumpyScalar")
-    ms = m.methods(cls)
-    # __init__: _dtype = np.dtype(dtype), _size = itemsize
-    init = ms["__init__"]
-    got = {}
-    for st in own_nodes(init):
-        if isinstance(st, ast.Assign) and isinstance(st.targets[0], ast.Attribute) and norm(st.targets[0].value) == "self":
-            got[st.targets[0].attr] = st
-    cx.need({"_dtype", "_size", "_c_type"} <= set(got), "NumpyScalar.__init__ does not set _dtype/_size/_c_type")
-    cx.check(norm(got["_dtype"].value) in ("np.dtype(dtype)", "numpy.dtype(dtype)"), got["_dtype"], detail="dtype from the declared name", bad_detail="_dtype is not np.dtype(dtype)", sub="init")
-    cx.check(norm(got["_size"].value) == "self._dtype.itemsize", got["_size"], detail="size = itemsize of the dtype", bad_detail="_size is not the dtype's itemsize", sub="init")
-    cx.check(norm(got["_c_type"].value) == param_names(init)[2], got["_c_type"], detail="C type from the declaration", bad_detail="_c_type is not the declared C name", sub="init")
-    # _from_buffer
-    fb = ms["_from_buffer"]
-    d = Defs(fb)
-    tb = [c for c in own_nodes(fb) if isinstance(c, ast.Call) and call_name(c) == "to_bytearray"]
-    cx.need(len(tb) == 1, "NumpyScalar._from_buffer: to_bytearray call not found")
-    cx.check([norm(a) for a in tb[0].args] == ["offset", "self._size"] and norm(tb[0].func.value) == "buffer", tb[0], detail="reads self._size bytes at offset", bad_detail="read extent is not (offset, self._size)", sub="read")
-    fr = [c for c in own_nodes(fb) if isinstance(c, ast.Call) and call_name(c) == "frombuffer"]
-    cx.need(len(fr) == 1, "NumpyScalar._from_buffer: frombuffer not found")
-    dt = get_arg(fr[0], 1, "dtype")
-    par = fr[0].parent
-    idx0 = isinstance(par, ast.Subscript) and norm(par.slice) == "0"
-    extra = [k.arg for k in fr[0].keywords if k.arg not in ("dtype",)]
-    cx.check(dt is not None and norm(dt) == "self._dtype" and idx0 and not extra, fr[0], detail="decoded with self._dtype, first element", bad_detail="bytes are not decoded as element 0 of self._dtype", sub="read")
-    # _to_buffer
-    tbuf = ms["_to_buffer"]
-    d = Defs(tbuf)
-    ub = [c for c in own_nodes(tbuf) if isinstance(c, ast.Call) and call_name(c) == "update_from_buffer"]
-    cx.need(len(ub) == 1 and len(ub[0].args) == 2, "NumpyScalar._to_buffer: update_from_buffer call not found")
-    data = ub[0].args[1]
-    if isinstance(data, ast.Name) and d.single(data.id) is not None:
-        data = d.single(data.id)
-    dtxt = norm(data)
-    if "self(value)" in dtxt and "__call__" in ms:
-        rr = [r for r in own_nodes(ms["__call__"]) if isinstance(r, ast.Return) and r.value is not None]
-        if len(rr) == 1:
-            pn = param_names(ms["__call__"])
-            conv = norm(rr[0].value).replace(f"({pn[1]})", "(value)") if len(pn) > 1 else norm(rr[0].value)
-            dtxt = dtxt.replace("self(value)", conv)
-    cx.check(norm(ub[0].args[0]) == "offset" and dtxt == "self._dtype.type(value).tobytes()", ub[0], construct=f"update_from_buffer(offset, {short(data)})",
-             detail="value converted with self._dtype, its bytes written at offset", bad_detail="written bytes are not self._dtype.type(value).tobytes() at offset", sub="write")
-    # array helpers
-    atb = ms["_array_to_buffer"]
-    ub = [c for c in own_nodes(atb) if isinstance(c, ast.Call) and call_name(c) == "update_from_buffer"]
-    cx.need(len(ub) == 1 and len(ub[0].args) == 2, "_array_to_buffer: update_from_buffer not found")
-    cx.check(norm(ub[0].args[0]) == "offset" and norm(ub[0].args[1]) == "value.tobytes()", ub[0], detail="array bytes written at offset", bad_detail="_array_to_buffer does not write value.tobytes() at offset", sub="array-write")
-    afb = ms["_array_from_buffer"]
-    tn = [c for c in own_nodes(afb) if isinstance(c, ast.Call) and call_name(c) == "to_nplike"]
-    cx.need(len(tn) == 1 and len(tn[0].args) == 3, "_array_from_buffer: to_nplike not found")
-    cx.check([norm(a) for a in tn[0].args] == ["offset", "self._dtype", "(count,)"], tn[0], detail="count items of self._dtype viewed at offset", bad_detail="_array_from_buffer is not to_nplike(offset, self._dtype, (count,))", sub="array-read")
+    m.cls("scalar::NumpyScalar")
+    SIZES = {"float64": 8, "float32": 4, "int64": 8, "uint64": 8, "int32": 4, "uint32": 4, "int16": 2, "uint16": 2, "int8": 1, "uint8": 1}
+    NAMES = {"float64": "Float64", "float32": "Float32", "int64": "Int64", "uint64": "UInt64", "int32": "Int32", "uint32": "UInt32", "int16": "Int16", "uint16": "UInt16", "int8": "Int8", "uint8": "UInt8"}
+    OFFS = _Sym(_Poly.atom("offset"))
+    n = 0
+    for dt, nm in NAMES.items():
+        I = Interp(m)
+        made = {}
+
+        def dtype(name, _I=I):
+            if isinstance(name, _Obj):
+                return name
+            d = _Obj("dtype", {"name": name, "itemsize": SIZES.get(name, 16), "str": name}, name=f"dtype({name})")
+
+            def conv(v=0):
+                return _Obj("npscalar", {"tobytes": _B("tobytes", lambda: ("bytes-of", name, v)), "dtype": d}, name=f"{name}({v!r})")
+
+            d.attrs["type"] = _B(f"{name}.type", conv)
+            made[name] = d
+            return d
+
+        def frombuffer(data, *a, **k):
+            dd = a[0] if a else k.pop("dtype", None)
+            extra = dict(k)
+            if len(a) > 1:
+                extra["positional"] = a[1:]
+            return _Obj("decoded", {"__getitem__": _B("decoded[]", lambda i: ("elem", data, dd, i, tuple(sorted(extra))))}, name="decoded")
+
+        np_ = I.np
+        I.np = _NS("np", dict(np_.table, dtype=_B("np.dtype", dtype), frombuffer=_B("np.frombuffer", frombuffer)))
+        log = []
+        buf = _Obj("instance", {}, name="buf")
+
+        def bind(names, a, k):
+            out = dict(zip(names, a))
+            out.update(k)
+            return out
+
+        buf.attrs["to_bytearray"] = _B("to_bytearray", lambda *a, **k: (log.append(("to_bytearray", bind(("offset", "nbytes"), a, k))), ("raw", len(log)))[1])
+        buf.attrs["update_from_buffer"] = _B("update_from_buffer", lambda *a, **k: log.append(("update_from_buffer", bind(("offset", "source"), a, k))))
+        buf.attrs["to_nplike"] = _B("to_nplike", lambda *a, **k: (log.append(("to_nplike", bind(("offset", "dtype", "shape"), a, k))), _Op("nplike"))[1])
+        out = {}
+
+        def thunk():
+            T = I.global_lookup("scalar", nm)
+            out["T"] = T
+            out["read"] = I.call(I.getattr(T, "_from_buffer"), [buf, OFFS], {})
+            k0 = len(log)
+            I.call(I.getattr(T, "_to_buffer"), [buf, OFFS, _Op("val")], {})
+            out["w"] = log[k0:]
+            k0 = len(log)
+            arr = _Obj("value", {"tobytes": _B("tobytes", lambda: ("array-bytes",))}, name="arr")
+            I.call(I.getattr(T, "_array_to_buffer"), [buf, OFFS, arr], {})
+            out["aw"] = log[k0:]
+            k0 = len(log)
+            out["ar"] = I.call(I.getattr(T, "_array_from_buffer"), [buf, OFFS, _Sym(_Poly.atom("count"))], {})
+            out["arl"] = log[k0:]
+
+        res = I.explore(thunk, max_paths=8)
+        cx.recog(len(res) == 1 and res[0]["exc"] is None, None, f"scalar {nm}: helper evaluation did not end in one normal path ({res[0]['exc'] if res else ''})")
+        n += 1
+        T = out["T"]
+        d = made.get(dt)
+        size = SIZES[dt]
+        anchor = "scalar::NumpyScalar"
+        cx.check(d is not None and T.attrs.get("_dtype") is d and T.attrs.get("_size") == size, None, construct=f"{nm}: _dtype = dtype('{dt}'), _size = {size}", detail="dtype from the declared name, size = its itemsize",
+                 bad_detail=f"{nm}: _dtype {T.attrs.get('_dtype')!r}, _size {T.attrs.get('_size')!r}", sub="init", anchor=anchor + ".__init__")
+        rd = [e for e in log if e[0] == "to_bytearray"]
+        r = out["read"]
+        okr = len(rd) == 1 and rd[0][1].get("offset") == OFFS and rd[0][1].get("nbytes") == size and isinstance(r, tuple) and r[0] == "elem" and r[1] == ("raw", 1) and r[2] is d and r[3] == 0 and not r[4]
+        cx.check(okr, None, construct=f"{nm}._from_buffer: element 0 of frombuffer(to_bytearray(offset, {size}), dtype('{dt}'))", detail="reads exactly its own bytes and decodes them with its dtype",
+                 bad_detail=f"read is {r!r} after {rd!r}", sub="read", anchor=anchor + "._from_buffer")
+        w = out["w"]
+        okw = len(w) == 1 and w[0][0] == "update_from_buffer" and w[0][1].get("offset") == OFFS and isinstance(w[0][1].get("source"), tuple) and w[0][1]["source"][:2] == ("bytes-of", dt) and isinstance(w[0][1]["source"][2], _Op) and w[0][1]["source"][2].tag == "val"
+        cx.check(okw, None, construct=f"{nm}._to_buffer: update_from_buffer(offset, dtype('{dt}').type(value).tobytes())", detail="value converted with its dtype, its bytes written at offset",
+                 bad_detail=f"write is {[(k, {a: repr(b) for a, b in dct.items()}) for k, dct in w]}", sub="write", anchor=anchor + "._to_buffer")
+        aw = out["aw"]
+        cx.check(len(aw) == 1 and aw[0][0] == "update_from_buffer" and aw[0][1].get("offset") == OFFS and aw[0][1].get("source") == ("array-bytes",), None, construct=f"{nm}._array_to_buffer: update_from_buffer(offset, value.tobytes())", detail="array bytes written at offset",
+                 bad_detail=f"array write is {aw!r}", sub="array-write", anchor=anchor + "._array_to_buffer")
+        arl = out["arl"]
+        shp = arl[0][1].get("shape") if arl else None
+        oka = len(arl) == 1 and arl[0][0] == "to_nplike" and arl[0][1].get("offset") == OFFS and arl[0][1].get("dtype") is d and isinstance(shp, tuple) and len(shp) == 1 and shp[0] == _Sym(_Poly.atom("count")) and isinstance(out["ar"], _Op) and out["ar"].tag == "nplike"
+        cx.check(oka, None, construct=f"{nm}._array_from_buffer: to_nplike(offset, dtype('{dt}'), (count,))", detail="count items of its dtype viewed at offset",
+                 bad_detail=f"array read is {arl!r}", sub="array-read", anchor=anchor + "._array_from_buffer")
+    cx.need(n == 10, f"{n} scalar kinds evaluated")
